@@ -107,7 +107,7 @@ MANIFEST = {
             "is an explicit panic outcome of the models; for EVERY source text the parser model (pest interpreter over the regenerated "
             "grammar + pair-tree walk) reaches none of its 23 distinct unwrap/unreachable!/assert! sites and never runs out of its own fuel (C14_parse: no panic outcome at all, for every text); assemble never yields one (other than the model's own fuel "
             "marker) for any item list — recursive and mis-applied macros, division by zero, negative and out-of-range operands "
-            "included; and it TERMINATES: with fuel above the explicit bound 257 * (opsSize + 2) the fuel marker cannot appear either "
+            "included; file graphs terminate too (C14_ingest_terminates: with every file at most N statements, fuel 256*(N+2) plus the assembler's bound is never the reason for an answer); and it TERMINATES: with fuel above the explicit bound 257 * (opsSize + 2) the fuel marker cannot appear either "
             "(C14_terminates; more fuel never changes an answer, C14_fuel_monotone), because macro nesting is cut off after 255 levels "
             "and bodies are finite; recursion is cut off with an error value after 255 macro levels / 255 nested sources; literal conversion fails "
             "only on strings the grammar cannot produce; ingestion returns bytes or an error value.",
